@@ -513,7 +513,7 @@ def months_inc(start_date, months, eomonth=False):
         return VALUE_ERROR
     if not (0 <= start_date < DATE_MAX_INT):
         return NUM_ERROR
-    y, m, d = date_from_int(start_date)
+    y, m, d = date_from_int(math.floor(start_date))
     # a fraction of a month is dropped
     y, m, _ = normalize_year(y, m + int(months), 1)
     if y < 1900:
